@@ -48,7 +48,7 @@ CHECKS = {
              "carrying its second, carrying the relation; the node map stays sound, graphStep_mapOk) and c14_edges_exact (in a document "
              "without influence relations the edges are exactly the relations with both endpoints, once each, in order); table obligations c14_inferable, "
              "t_inferred_class, t_only_influence_uninferable. Node list, edge list and the converted-back document of the real "
-             "MultiDiGraph are compared with the model and with an independent specification computed from the unified document.",
+             "MultiDiGraph are compared with the model and with an independent specification computed from the unified document. There and back (Props/C14C): GInv is established by the element phase and kept by the relation loop; c14_edgeRecs_perm and c14_there_and_back - graph_to_prov hands to the new document the declared nodes and a permutation of exactly the relations with both endpoints.",
         note=A_COMMON + " networkx is assumed to be a node set + edge multiset with adjacency-order iteration (A-EXT). Influence relations "
              "with an undeclared endpoint may or may not be drawn (documented exception; order dependent).",
         technique="Lean 4 induction over the relation fold + node/edge list correspondence with networkx + independent graph spec",
@@ -113,7 +113,7 @@ CHECKS = {
              "repetition); hence c04_recordsEq_refl / _symm / _trans and c04_recordsEq_of_same_members. ProvDocument.__eq__ (own records, bundle "
              "count, bundle-wise equality by identifier): c04_docEq_symm and c04_docEq_trans, given that a document's bundle identifiers are "
              "pairwise distinct by URI (pigeonhole over the two bundle tables). Every comparison is also run on the implementation for every "
-             "generated pair in both argument orders (after read-only accessors have been exercised on one side); an independent content oracle decides the expected answer for 15 edit kinds, including in-place edits after a record has been hashed.",
+             "generated pair in both argument orders (after read-only accessors have been exercised on one side); an independent content oracle decides the expected answer for 15 edit kinds, including in-place edits after a record has been hashed. Document level (Props/C04D): c04_docEq_iff - d1 == d2 holds exactly when the top-level record sets agree, the bundle identifiers agree and each pair of same-named bundles has the same record set.",
         note=A_COMMON + " Floats are assumed to carry the non-zero denominator float.as_integer_ratio() always gives (hypothesis RecOk). "
              "Distinctness of bundle identifiers inside one document is a hypothesis of the document-level theorems (it is the key set of "
              "a dict; C18 proves the corresponding coherence for records); __hash__ consistency is checked by the oracle only.",
@@ -155,7 +155,7 @@ CHECKS = {
              "record and ANY attribute list of a stored record, every offered (attribute, value) is represented in the result (inserted, or "
              "already present as an equal value under the single-value guard), everything the accumulator held is kept, and nothing else appears "
              "(addOne_general; built on C09's re-creation lemmas); unified() of documents and bundles compared with an independent specification "
-             "(union of attributes, first-occurrence order, ProvException iff formal conflict), idempotence, source unchanged.",
+             "(union of attributes, first-occurrence order, ProvException iff formal conflict), idempotence, source unchanged. On the heap (Props/C08D): c08_mergeGroup_content (one fresh cell holding exactly the union of the group under the first member's kind and identifier; no existing cell written), c08_mergeAll_content and c08_unifiedRecords_content (the merge table maps every member of every group to such a record; the result is placeMerged of that table).",
         note=A_COMMON + " Known finding C08-1: unified() registers namespaces in a source bundle. Identified membership records are not claimed.",
         technique="Lean 4 list lemmas on the placement pass + op-sequence correspondence + independent unification spec",
         design="§4.C08"),
@@ -170,7 +170,7 @@ CHECKS = {
              "(c09_newRecord_appends); an add_record sequence leaves the target with its former records followed by one new record per source "
              "record, same kinds, same order, other cells untouched (c09_addRecords_conserves). Strict URI-level multiset conservation, refusals "
              "(duplicate / missing identifier / nested bundles) and immutability of `other` are checked on the real code by a conservation "
-             "oracle and by correspondence.",
+             "oracle and by correspondence. On the heap (Props/C09D): c09_addRecord_heap (add_record of a stored record never fails, appends exactly one fresh record == to its source to that container only, writes no existing cell), c09_addRecords_heap (whole sequences, copies paired with sources in order), c09_flattened_heap.",
         note=A_COMMON + " The composition of the record-level theorem with the heap plumbing of new_record (identifier resolution, element "
              "identifier check, cell allocation) is by correspondence; c09_addRecords_conserves covers kinds, counts and frames.",
         technique="Lean 4: content theorem for re-created records (all managers, all stored records) + induction over add_record sequences + correspondence + oracle",
@@ -188,7 +188,7 @@ CHECKS = {
         text="Lean: text/graph exporters are pure functions of the heap (no way to write; repeatability is functional congruence), the "
              "allocating exporters flattened()/add_record sequences leave every pre-existing container, manager and record cell unchanged "
              "(c13_addRecords_frame, c13_flattened_frame). On the real code: full observation before/after every exporter and option "
-             "combination in random orders, text exports twice and on a twin built by the same calls, RDF graph isomorphism.",
+             "combination in random orders, text exports twice and on a twin built by the same calls, RDF graph isomorphism. unified() (Props/C13B): c13_unified_frame / c13_unified_content - every container cell (records and order, identifier index, bundle table, identifier) and every record cell that existed is unchanged after ProvDocument.unified(), whether it succeeds or raises.",
         note=A_COMMON + " Known finding C13-1 (= C08-1): unified() registers namespaces in a source bundle. Repeatability across processes is not claimed.",
         technique="Lean 4 frame proofs (exporters as pure/allocating heap functions) + before/after observation oracle",
         design="§4.C13"),
@@ -216,7 +216,7 @@ CHECKS = {
              "(attribute, value) is read back by _extract_attributes as a value that add_attributes stores as the original (c02_int, "
              "c02_bool, c02_uri, c02_float, c02_str incl. strings starting with 'prov:', c02_ref for prov:ref, c02_lang for xml:lang), "
              "under explicit readability hypotheses on the element's namespace map (StdMap). Tied to /repo by three channels per "
-             "document and force_types value: writer infoset, reader on the same infoset, strict end-to-end comparison.",
+             "document and force_types value: writer infoset, reader on the same infoset, strict end-to-end comparison. Record level (Props/C02S): sorted_attributes is a permutation for every record kind (c02_sortedAttributes_perm), _derive_record_label consumes exactly one pair by position (c02_deriveLabel_exact), so the children of a record element are one per remaining pair (c02_children_perm).",
         note=A_COMMON + " A-XMLTEXT (lxml round-trips the infoset) and A-LEX assumed; lexical facts such as 'a decimal numeral does not "
              "start with prov:' are hypotheses of the theorems. Which of several PROV subtype values names the element follows Python's "
              "set order: compared modulo that choice. Known finding C02-1 = C03-1/C01-1 (bundle re-binds a prefix).",
@@ -240,7 +240,7 @@ CHECKS = {
         text="An independent PROV-JSON reader written in Lean from the specification (Prov/JsonSpec.lean; own tables, own name resolution) "
              "is executed on the text the library really emits (all json option sets) and must recover the source's strict content. "
              "Lean obligations T6: the transcribed spec tables equal the code's regenerated tables (t6_json_kind_keys, _ref_keys, "
-             "_time_keys, _literal_types, _attribute_ids); the spec reader inverts the writer on name-free values (c10_json_value_*).",
+             "_time_keys, _literal_types, _attribute_ids); the spec reader inverts the writer on name-free values (c10_json_value_*). Record level (Props/C10R): c10_value_any (every value, any scope with the stated resolutions) and c10_record (from the writer's object the specification reader recovers exactly the record's (attribute URI, value) pairs, in order), with a concrete non-vacuity instance.",
         note=A_COMMON + " PROV-XML: Prov/XmlSpec.lean (element table, subtype elements, prov:id/prov:ref, xsi:type/xml:lang, schema child "
              "order check) run on the real XML for both force_types; obligations t6_xml_elements, _subtypes, _formal_order, _model_subtypes. "
              "The spec readers are hand transcriptions (trusted reading). Known finding C10-1 = C01-1.",
